@@ -47,3 +47,9 @@ Lemma nth_error_lupd_ne {A} (l : list A) i j x : i <> j -> nth_error (lupd l i x
 Proof.
   revert i j; induction l as [|y r IH]; intros [|i] [|j] H; cbn; auto; try congruence.
 Qed.
+
+Lemma In_seqn len : forall st m, In m (seqn st len) <-> st <= m < st + len.
+Proof.
+  induction len as [|len IH]; intros st m; cbn [seqn In]; [lia|].
+  rewrite IH. lia.
+Qed.
